@@ -47,6 +47,19 @@ pub fn from_f64(x: f64) -> Value {
         }
         y *= 2.0;
     }
+    // Not a small dyadic.  A value that is (up to float rounding noise, 1e-12 relative) a rational p/q with a
+    // NON-power-of-two denominator q <= 4096 is logged as that rational, so that problems with coefficients such
+    // as 1/3 survive the f64 round trip.  Dyadic values never take this path: in the dyadic domain the trace is
+    // bit-exact, and a 1-ulp error there is logged as unrepresentable and rejected by the judge.
+    let a = approx_rational(x, 4096);
+    if let (Some(p), Some(q)) = (a[0].as_i64(), a[1].as_i64()) {
+        if q > 1 && (q & (q - 1)) != 0 {
+            let r = p as f64 / q as f64;
+            if (r - x).abs() <= 1e-12 * x.abs().max(1.0) {
+                return a;
+            }
+        }
+    }
     json!([0, -2])
 }
 
